@@ -47,7 +47,8 @@ Theorem C19_gaussian_centre : forall shape shift s,
   gauss_center shape shift s == (inject_Z (gauss_shape_px (gauss_shape_subpix shape s)) - 1) / 2 + shift / s.
 Proof. exact gauss_center_formula. Qed.
 
-Theorem C19_curry_anchor : curry_provider = true /\ curry_converter = true /\ binops_are_voxelwise = true /\ gauss_exponent_is_sum_of_squares = true.
+Theorem C19_curry_anchor : curry_provider = true /\ curry_converter = true /\ binops_are_voxelwise = true /\ gauss_exponent_is_sum_of_squares = true /\
+  converters_have_no_memory = true.
 Proof. repeat split; reflexivity. Qed.
 
 Print Assumptions C19_operators.
